@@ -69,6 +69,15 @@ type Result struct {
 	WallS       float64        `json:"wall_s"`
 	Bounds      map[string]any `json:"bounds,omitempty"`
 	PerScenario []ScenarioStat `json:"per_scenario,omitempty"`
+	RaceExecs   []RaceExec     `json:"race_execs,omitempty"`
+}
+
+// RaceExec ties race reports (in the order the detector printed them) to the
+// execution during which they appeared.
+type RaceExec struct {
+	Case    string `json:"case"`
+	Choices []int  `json:"choices"`
+	N       int    `json:"n"`
 }
 
 type ScenarioStat struct {
@@ -89,6 +98,7 @@ type Ctx struct {
 	curCase  string
 	deadline time.Time
 	Stop     bool
+	raceSeen int
 }
 
 type Scenario func(c *Ctx)
@@ -309,6 +319,10 @@ func (c *Ctx) Explore(o ExploreOpts) {
 		first = false
 		return vsched.Run(cfg, o.Body)
 	}, func(x *vsched.Exec) bool {
+		if n := vsched.RaceErrors(); n > c.raceSeen {
+			c.Res.RaceExecs = append(c.Res.RaceExecs, RaceExec{Case: o.Name, Choices: x.Choices(), N: n - c.raceSeen})
+			c.raceSeen = n
+		}
 		if x.Trace != nil {
 			c.Sample(map[string]any{"scenario": o.Name, "default_schedule_trace": x.Trace, "status": x.Status})
 		}
